@@ -16,6 +16,48 @@ CHECKS = {
         note="Value alphabet: 6 variable definitions (3 tables rotated by VERIF_SEED); at most 3 variables alive; depth bound as reported in the evidence; states are merged on a canonical form that includes the name-mangled caches.",
         technique="explicit-state BFS over operation histories of the real object (bounded depth), invariant checked in every state",
     ),
+    "C05": dict(
+        engine="E1-bfs", category="model_checking",
+        text="(H) BFS over every history (depth 3/4; 2/3 for the shared-memory and HDF5 caches) of execute with fresh arrays / execute through caller arrays modified in place / defaults-only / linearize(all|subset) / reopen on harness disciplines with known ground truth and body-run counters (dense, sparse-Jacobian and self-coupled variants), for no cache, SimpleCache, MemoryFullCache (shared or not) and HDF5Cache (nested node), exact and tolerance-based; (S) every history of <= 3 operations over {execute(d), execute(1.07d), linearize(d), linearize(1.07d)} on every shipped discipline the factory builds without arguments, with a full and a simple cache, against an uncached twin running the same history.",
+        note="3 input values (one within the tolerance of another) + defaults, 3 alphabets rotated by VERIF_SEED; canonical state = cache entries + local data + Jacobian keys + differentiated I/O + the caller's reused arrays + run counters; large topology-optimization disciplines are limited to depth 1/2.",
+        technique="explicit-state BFS over operation histories of real disciplines and caches, ground-truth / uncached-twin oracle in every state",
+    ),
+    "C08": dict(
+        engine="E2-product", category="exploration",
+        text="Exhaustive: every labelled digraph on n <= 3 nodes with self-loops and on 4 nodes (without self-loops quick, with thorough) x naming (distinct/duplicated) x I/O and edge-realisation variants is turned into disciplines; the execution sequence and the coupling sets are compared with an independent Warshall SCC/topology oracle; for n <= 3 MDAChain / MDOChain on affine contractive disciplines, in every listing order and with one setting deviation at a time, must equal the monolithic linear solve; initialization-chain ordering against an independent fixed point.",
+        note="Structure exhaustive for all digraphs on <= 4 nodes; execution exhaustive for n <= 3 on one affine contractive value alphabet per seed with derived tolerances; not a proof for n > 4 (the statement's 'randomly beyond' is not done: sampling is another family).",
+        technique="bounded-exhaustive enumeration of all labelled dependency digraphs, transitive-closure oracle and monolithic-solve oracle",
+    ),
+    "C10": dict(
+        engine="E2-product", category="exploration",
+        text="Every expression tree of depth <= 2 (thorough: depth 3 over a core alphabet) over 10 function leaves (scalar, m=n, m!=n, dense/sparse linear, quadratic), a number and an array with {+,-,*,/,neg,offset}, and every helper constructor (restriction with every frozen subset, linear composition, concatenation, normalize/restrict of linear functions, Taylor polynomials, convex linearization with every mask, the 6 aggregations x index groups x scalar/vector scale, the ConstraintAggregation discipline) is built with the real classes and evaluated/differentiated on a grid; value and Jacobian are compared with an independent dual-number evaluation of the same program within a derived rounding bound; operands must stay bitwise unchanged; KS bounds on the documented side.",
+        note="Exhaustive in structure within the stated bounds, 4 value alphabets rotated by VERIF_SEED, float64 only (the 'symbolically for all real inputs' reading is not covered); mixed output dimensions and composites that raise on sparse-Jacobian operands are outside the alphabet.",
+        technique="bounded-exhaustive enumeration of expression trees / helper constructions, forward-mode dual-number reference",
+    ),
+    "C11": dict(
+        engine="E1-bfs+E2-product", category="model_checking",
+        text="(H) BFS over every store/export history of depth <= 5 (quick) / 6 (thorough) of a real Database and its HDF file ({new point x output-subset menu, new output at an old point, append export, full export} x root/nested node; scalar, size-1, vector, matrix, list and empty values; float and integer points; names whose sort order differs from arrival order): every export is reloaded and compared with memory and with a single fresh export; (R) exhaustive products of DesignSpace HDF/CSV round trips, OptimizationProblem.to_hdf/from_hdf after short runs, HDF5Cache reopened on the same file/node.",
+        note="Value alphabet fixed per (point position, name), 3 tables rotated by seed; states merged on content + pending set + file-tree digest; text format compared to the 16 significant digits it prints.",
+        technique="explicit-state BFS over store/export histories of the real database and file; exhaustive round-trip products",
+    ),
+    "C14": dict(
+        engine="E2-product", category="exploration",
+        text="Full product over all 30 DOE algorithms of the factory x dimension {1,2,3,5} x bound layout (unit, asymmetric, negative, tiny, lb==ub) x types (float, integer, mixed) x size parameters x seed x entry point (compute_doe / execute); each configuration is executed 2-4 times on the real library (fresh instance, other initial value of the integer-normalization switch, same instance again, unit sampling) and a subset again in a fresh interpreter; exact oracles: inside the bounds, integrality, column order, counts, bitwise determinism, samples == untransform(unit samples), switch restored.",
+        note="Bounds clause held for domain-filling algorithms only (OT_SOBOL_INDICES, OATDOE, circumscribed ccdesign are counted); library refusals are counted per algorithm, never silent; 3 bound tables rotated by VERIF_SEED; two known findings (1-2 ulp excess at the upper bound, OT_SOBOL_INDICES count in dimension 1).",
+        technique="full product of configuration axes executed on the real library, exact oracles",
+    ),
+    "C15": dict(
+        engine="E1-bfs", category="model_checking",
+        text="Every history of at most 3 (quick) / 4 (thorough) grammar edits and read-only queries is executed on a real JSONGrammar, SimpleGrammar and PydanticGrammar in lock-step, from the empty grammar and (depth 1-3) from each of the 25 shipped JSON schemas and a PydanticGrammar on a user model; in every state: required/defaults within the elements, agreement with an independent reference definition and with the vendored jsonschema validator on json.loads(to_json()), JSON/Simple agreement, queries are no-ops (including the cached schema), copy/update/pickle independence.",
+        note="3 names + rename target, 5 types, 5 value kinds (3 tables rotated by VERIF_SEED); followers are dropped at the first operation they do not share; canonical state includes the cached schema dict, validator presence and genson's required set; values on which JSON-schema drafts disagree are outside the alphabet.",
+        technique="explicit-state BFS over operation histories of real grammar objects, reference-model and reference-validator oracles",
+    ),
+    "C16": dict(
+        engine="E2-product", category="exploration",
+        text="Full product of approximator {FirstOrderFD, CenteredDifferences, ComplexStep} x test function (polynomial / analytic with term-wise derivative bounds; m=n and m!=n) x point class (interior, zero components, on/near either bound) x step (scalars, per-component vector, at call or construction) x x_indices (default + every non-empty subset) x serial / process-parallel x design space (none, bounded, normalized), plus the discipline-level wrappers (linearize in the approximation modes, compute_approx_jac with every subset, check_jacobian with every indices form, which must accept the exact Jacobian and reject one wrong entry); oracle: shape, derived Taylor + rounding bound entry by entry, and a shared-memory log of every evaluation point against the upper bounds.",
+        note="Values from three finite alphabets rotated by VERIF_SEED; centered differences within one step of a bound are held to the one-sided bound; only upper bounds are enforced (as the statement says); thread-parallel approximation is excluded by CallableParallelExecution's documented contract.",
+        technique="full product of structural axes, analytic oracle with derived error bounds and evaluation-point log",
+    ),
     "C12": dict(
         engine="E4-crash", category="fault_enumeration",
         text="For every configuration (MDO DisciplinaryOpt with SLSQP and with COBYLA, MDO MDF with SLSQP, DOE full-factorial / custom samples on one discipline and on an MDF system) x backup at each function call / each iteration x normalized or not x counter kept or reset, an uninterrupted reference run is logged; then the process is really killed (os._exit) inside EVERY discipline execution k = 1..K of the run, the backup file is loaded and compared with the reference snapshot taken at the last backup event before execution k, a fresh process restarts with load=True and is checked for rework, kept entries, optimum and (exact-replay configurations) equality with the uninterrupted history; for small runs every second crash point of the restart is enumerated too (file already containing earlier data).",
